@@ -439,6 +439,7 @@ def init_assignments(src, clsname):
     elements of `self.eqs`."""
     tree = pyast.parse(src)
     out, eqs = [], None
+    matrices = {}
     for cls in [n for n in tree.body if isinstance(n, pyast.ClassDef) and n.name == clsname]:
         for fn in [n for n in cls.body if isinstance(n, pyast.FunctionDef) and n.name == "__init__"]:
             for st in fn.body:
@@ -452,6 +453,11 @@ def init_assignments(src, clsname):
                     out.append({"fn": v.func.attr, "ids": ids, "names": _split_names(arg)})
                 if isinstance(t, pyast.Attribute) and t.attr == "eqs" and isinstance(v, pyast.List):
                     eqs = [pyast.get_source_segment(src, el) for el in v.elts]
+                if isinstance(t, pyast.Attribute) and t.attr in ("x", "v", "c", "p", "u", "y") and \
+                        isinstance(v, pyast.Call) and isinstance(v.func, pyast.Attribute) and v.func.attr == "Matrix" \
+                        and v.args and isinstance(v.args[0], pyast.List):
+                    matrices[t.attr] = [pyast.get_source_segment(src, el) for el in v.args[0].elts]
+    init_assignments.matrices = matrices
     return out, eqs
 
 
